@@ -52,6 +52,36 @@ func lhsField(f *ir.Func, e ast.Expr) *types.Var {
 	}
 }
 
+// lhsFieldA is lhsField that also sees through a local variable bound once to
+// a field path (`m := db.mem.puts`, as a helper's parameter binding is): maps,
+// slices and pointers copied that way still denote the field's storage.
+func lhsFieldA(f *ir.Func, e ast.Expr) *types.Var {
+	if v := lhsField(f, e); v != nil {
+		return v
+	}
+	for {
+		switch x := ast.Unparen(e).(type) {
+		case *ast.IndexExpr:
+			e = x.X
+			continue
+		case *ast.SliceExpr:
+			e = x.X
+			continue
+		case *ast.StarExpr:
+			e = x.X
+			continue
+		case *ast.Ident:
+			switch f.TypeOf(x).Underlying().(type) {
+			case *types.Map, *types.Slice, *types.Pointer:
+				if o := origin(f, x); o != ast.Expr(x) {
+					return lhsField(f, o)
+				}
+			}
+		}
+		return nil
+	}
+}
+
 // isFieldExpr reports whether e is exactly a selection of fld (x.fld).
 func isFieldExpr(f *ir.Func, e ast.Expr, fld *types.Var) bool {
 	return fld != nil && f.FieldOf(ast.Unparen(e)) == fld
@@ -72,6 +102,11 @@ func isNilAssign(f *ir.Func, n *cfgx.Node, fld *types.Var) bool {
 
 // errorish reports whether a return kind can carry a non-nil error.
 func errorish(k ir.RetKind) bool { return k == ir.RetError || k == ir.RetMaybe }
+
+// errorishKinds: a set of return kinds (as produced by ReturnKindsFrom) holding an error-capable one.
+func errorishKinds(set uint) bool {
+	return set&(1<<uint(ir.RetError)|1<<uint(ir.RetMaybe)) != 0
+}
 
 // lenOf matches len(x) and returns x.
 func lenOf(f *ir.Func, e ast.Expr) ast.Expr {
